@@ -82,6 +82,9 @@ func (in *Interp) runSub(name string, f func()) bool {
 			in.depth, in.curFrame = depth0, frame0
 			switch e := r.(type) {
 			case testFatal:
+			case fatalStack:
+				in.unwinding = false
+				st.fail("fatal: stack overflow")
 			case pathAbort:
 				rec.Status = "unsupported"
 				rec.Why = e.reason
@@ -180,7 +183,7 @@ func cmdSelftest(args []string) int {
 	pkgs := fs.String("pkgs", "./test,./test/example,./ext,./types", "comma-separated package patterns whose tests are run inside the engine")
 	runRe := fs.String("run", "", "regexp on top-level test names")
 	verbose := fs.Bool("v", false, "verbose")
-	out := fs.String("o", filepath.Join(verifDir, "evidence", "selftest.json"), "report file")
+	out := fs.String("o", filepath.Join(verifDir, "selftest", "report.json"), "report file")
 	fs.Parse(args)
 	t0 := time.Now()
 	loadTests = true
